@@ -18,6 +18,8 @@ mod ibc;
 mod oracle;
 #[path = "/verif/harness/seq/app/proposals.rs"]
 mod proposals;
+#[path = "/verif/harness/seq/app/rollups.rs"]
+mod rollups;
 #[path = "/verif/harness/seq/app/sim.rs"]
 mod sim;
 
